@@ -15,26 +15,6 @@ import vlib
 MOD, JUDGE = "GeoJson", "GeoJsonJudge"
 CONVERSIONS_PER_OPTION_SET = 3
 
-# Ready-to-paste known_findings.json entries (notes/C17.md, round 5).  Until the coordinator has added entries for these
-# predicates to /verif/known_findings.json (as "known", or as "fixed" once fixes/C17-ids-beyond-featureid.diff is
-# committed) the check uses these copies; an entry in the file (either status) takes precedence.
-LOCAL_KNOWN = [
-    {"property": "C17", "kf": "KF_PolygonIdentityViaFeatureID", "status": "known", "commit": "76b44d7",
-     "what": "multipolygon/boundary features take type and id from osm.FeatureID (40-bit ref): for a negative id or an id >= 2^40 "
-             "the feature gets type \"\" and id mod 2^40, e.g. \"/1099511627775\" instead of \"relation/-1\" (osmgeojson/build_polygon.go:162-169)"},
-    {"property": "C17", "kf": "KF_NegativeIdsShareMembershipKey", "status": "known", "commit": "76b44d7",
-     "what": "the relation membership map is keyed by osm.FeatureID: node -k, way -k and relation -k share one key, so an element is "
-             "reported (and a node treated) as member of relations listing an element of another type with the same negative id "
-             "(osmgeojson/convert.go:83-88, 133-135, 305)"},
-]
-
-
-def register_known(ctx):
-    for e in LOCAL_KNOWN:
-        if not any(k.get("kf") == e["kf"] for k in ctx.known):
-            ctx.known.append(dict(e))
-
-
 _BIN = {}
 
 
@@ -98,7 +78,6 @@ def account(ctx, module, cfg, r):
 
 
 def run(ctx):
-    register_known(ctx)
     tier = "quick" if ctx.quick() else "thorough"
     build = Bg(binary)
     # the copy of the polygon-features table in GeoJson.tla == PolygonRules.tla (own scratch: runs next to the generation)
@@ -210,7 +189,6 @@ def run(ctx):
 
 
 def replay(ctx, rp):
-    register_known(ctx)
     seed = rp.get("seed", ctx.seed)
     recs = execute(ctx, [rp["case"]], seed=seed)
     bad = make_judge(ctx)(recs)
